@@ -431,6 +431,16 @@ def refusal_class(proto, out):
     return proto == "spartan" and out.startswith(b"5 ") and out.endswith(b"\r\n") and out.count(b"\n") == 1
 
 
+def with_tal(handlers):
+    """the same handler list with the template handler where the shipped configuration puts it"""
+    return handlers.replace("html.HTMLFileTitleHandler", "tal.TALFileHandler, html.HTMLFileTitleHandler")
+
+
+# Random trees carry the metadata of each directory in one content form, every class of forms takes part; in
+# the forms tree each directory holds exactly one form, so that a difference can be put down to it (tag).
+RANDOM_TREE_FORM_CLASSES = ("newline", "long-line", "bytes", "bytes-at-eof", "bounded-read", "unicode-linebreak")
+
+
 def without_real_only(handlers):
     drop = ("mbox.MaildirFolderHandler", "mbox.MaildirMessageHandler", "mbox.MBoxMessageHandler",
             "mbox.MBoxFolderHandler", "pyg.PYGHandler", "scriptexec.ExecHandler", "ZIP.ZIPHandler")
@@ -452,20 +462,39 @@ def part_oracle(chk, tier):
     protos = gen.PROTOCOLS
     jobs, meta = [], []
     degenerate = G.degenerate_trees()
+    # the content form of metadata members: one tree that holds the same logical directory once per form
+    # (line-ending conventions, bytes that are line breaks only to str.splitlines, non-UTF-8, long lines,
+    # side-cars beyond a bounded read ...), served with the template handler switched on as well
+    form_trees = [G.forms_tree(rng) for _ in range(3 if tier == "thorough" else 1)]
     conts = G.containers(rng, ntrees) + [{"writer": "zipfile", "sfx": True}, {"writer": "raw", "comment": True}, {"writer": "zipfile"},
                                         {"writer": "raw", "sfx": True, "store_all": True}, {"writer": "zipfile", "comment": True}][:len(degenerate)]
-    for i in range(ntrees + len(degenerate)):
+    fconts = [{"writer": "infozip"}, {"writer": "raw", "descriptor": True}, {"writer": "zipfile", "comment": True}]
+    k0 = rng.randrange(len(fconts))
+    conts += [fconts[(k0 + j) % len(fconts)] for j in range(len(form_trees))]
+    for i in range(ntrees + len(degenerate) + len(form_trees)):
         big = ("bigfiles",)          # every oracle tree holds large members, the first of them always STORED
         if tier == "thorough" and i % 8 == 0:
             big += ("hugefiles",)
+        is_forms = i >= ntrees + len(degenerate)
         if i < ntrees:
-            tree = G.gen_tree(rng, feats[i % len(feats)] + ("rootmeta", "nested") + big)
+            # every random tree: each directory's metadata in one content form, the forms dealt out in rotation
+            tree = G.apply_forms(G.gen_tree(rng, feats[i % len(feats)] + ("rootmeta", "nested") + big), rng,
+                                 classes=RANDOM_TREE_FORM_CLASSES)
+        elif is_forms:
+            tree = form_trees[i - ntrees - len(degenerate)]
         else:
             tree = degenerate[i - ntrees][1]
         members = G.members_of(tree, rng, ["tree", "shuffle", "links_first"][i % 3])
-        sels = G.tree_selectors(tree, rng, extra=4)
+        if is_forms:
+            fdirs = [e["path"] for e in tree if e["kind"] == "dir" and "/" not in e["path"]]
+            sels = [""]
+            for d in fdirs:
+                sels += [d, d + "/gm", d + "/four.txt", d + "/one.txt", d + "/five.txt", d + "/three.html", d + "/page.html.tal",
+                         d + "/.cap"]
+        else:
+            sels = G.tree_selectors(tree, rng, extra=4)
         sels = [p for p in sels if "//" not in p and not p.startswith("/")]
-        if len(sels) > 70:
+        if len(sels) > 70 and not is_forms:
             # always: the top, every stored archive and the first things inside it; the rest sampled
             arcs = [e["path"] for e in G.flatten(tree) if e["path"].endswith(".zip")]
             must = [p for p in sels if p == "" or p in arcs or any(p.startswith(a + "/") and p.count("/") == a.count("/") + 1 for a in arcs)]
@@ -481,8 +510,12 @@ def part_oracle(chk, tier):
             if e["path"].endswith("run.sh"):
                 extra += [e["path"] + "?arg"]
         climbers = ["../outside.txt", "a.txt/../../outside.txt", "./a.txt", "dir1//a.txt", "..", "x\x00y"]
+        if is_forms:
+            climbers = climbers[:1]
         allsels = sels + extra + climbers
         for handlers, hname in ((ZIP_FIRST, "zip-first"), (ZIP_LATE, "zip-late")):
+            if is_forms:
+                handlers = with_tal(handlers)
             zacts, tacts, plan = [], [], []
             for p in allsels:
                 tsel = TSEL + ("/" + p if p else "")
@@ -490,10 +523,18 @@ def part_oracle(chk, tier):
                 zacts.append({"do": "handler", "sel": zsel})
                 tacts.append({"do": "handler", "sel": tsel})
                 plist = protos if hname == "zip-first" else rng.sample(protos, 3)
+                if is_forms and p.count("/") == 1:
+                    # what lies in a form's directory: its Gopher+ info (side-car, link-file and .cap blocks) and the
+                    # document / menu itself in one more protocol; the directory of the form itself in every protocol
+                    plist = [rng.choice(["gopherplus", "sgopherplus"]), rng.choice([q for q in protos if "plus" not in q])]
+                    if hname != "zip-first":
+                        plist = plist[:1]
                 for proto in plist:
                     if proto in ("gopher", "sgopher", "gopherplus", "sgopherplus") and (p != p.strip() or "\t" in p):
                         continue
                     gp = rng.choice(["+", "!", "$"])
+                    if is_forms and p.count("/") == 1:
+                        gp = "!" if proto == plist[0] and not p.endswith((".cap", "/gm")) else "$"
                     d1, tls = gen.request_bytes(proto, tsel, gplus=gp)
                     d2, _ = gen.request_bytes(proto, zsel, gplus=gp)
                     tacts.append({"do": "req", "data": gen.lat(d1), "tls": tls})
@@ -510,7 +551,7 @@ def part_oracle(chk, tier):
                         zacts.append({"do": "req", "data": gen.lat(d2), "tls": tls})
                         plan.append((label, proto, gp, len(zacts) - 1, gen.lat(d1), gen.lat(d2), tls))
             plan2, tree2, members2 = [], None, None
-            if hname == "zip-first":
+            if hname == "zip-first" and not is_forms:
                 # history in ONE server process: the site is updated (archive rewritten in place, tree
                 # re-extracted) between two rounds of browsing; the archive has to follow the tree
                 tree2 = G.mutate_tree(tree, rng)
@@ -538,7 +579,7 @@ def part_oracle(chk, tier):
             common_kw.update(container=conts[i], infolist=False)
             jobs.append(job_for(tree, members, zacts, handlers=handlers, **common_kw))
             jobs.append(job_for(tree, members, tacts, handlers=without_real_only(handlers), **common_kw))
-            meta.append((tree, members, allsels, plan, hname, handlers, plan2, tree2, members2, conts[i]))
+            meta.append((tree, members, allsels, plan, hname, handlers, plan2, tree2, members2, conts[i], is_forms))
     # corpus: the D19 exhibit — a mailbox and a maildir at the top of an archive, a mailbox of the same
     # name in the server's working directory (outside the document root)
     ex_tree = [{"path": "a.txt", "kind": "file", "data": "alpha\n"},
@@ -574,8 +615,10 @@ def part_oracle(chk, tier):
                                "server's working directory (mailbox.Maildir(relative member path), create=True)",
                        "selectors": ex_reqs, "created": ex["cwd_created"], "members": G.members_of(ex_tree),
                        "config": config_for(ZIP_FIRST)}, tag="D19-writes-in-server-cwd")
-    nreq = ndiff = nreal = nhist = 0
-    for k, (tree, members, allsels, plan, hname, handlers, plan2, tree2, members2, cont) in enumerate(meta):
+    nreq = ndiff = nreal = nhist = nmore = 0
+    # the forms tree is looked at first: its tags name the content form a difference goes with
+    for k in sorted(range(len(meta)), key=lambda j: not meta[j][10]):
+        tree, members, allsels, plan, hname, handlers, plan2, tree2, members2, cont, is_forms = meta[k]
         rz_job, rt_job = res[2 * k], res[2 * k + 1]
         for r in (rz_job, rt_job):
             if not r["ok"]:
@@ -606,6 +649,11 @@ def part_oracle(chk, tier):
                                "members": members, "config": config_for(handlers),
                                "created_in_server_cwd": zout["cwd_created"]}, tag="D19-real-only-handler-in-zip:" + bad[0])
         steps = [(1, q) for q in plan] + [(2, q) for q in plan2]
+        # forms tree: the directory written in plain LF text is the control -- a difference is put down to the
+        # content form only while that directory (same logical content) answers alike on both sides
+        plain_alike = is_forms and all(mask(tacts[q[3]]["out"].encode("latin-1"), False) == mask(zacts[q[3]]["out"].encode("latin-1"), True)
+                                       for _, q in steps if q[0].split("/")[0] == "f-lf")
+        per_form = {}
         for step, (p, proto, gp, ai, d1, d2, tls) in steps:
             rt, rz = tacts[ai], zacts[ai]
             nreq += 2
@@ -625,6 +673,12 @@ def part_oracle(chk, tier):
             if not same:
                 ndiff += 1
                 found = True
+                if is_forms:
+                    # the same form fails in every protocol: two replays per form directory and handler list say it all
+                    per_form[p.split("/")[0]] = per_form.get(p.split("/")[0], 0) + 1
+                    if per_form[p.split("/")[0]] > 2:
+                        nmore += 1
+                        continue
                 chk.violation({"what": "the answer for a selector into the archive differs from the answer for the "
                                        "same selector into the extracted tree (selector prefix and timestamps masked; "
                                        "tree served without the real-file-only handlers)",
@@ -634,16 +688,26 @@ def part_oracle(chk, tier):
                                "exception_zip": rz.get("exc"), "log_zip": rz.get("log"),
                                "tree": tree, "members": members, "pruned_links": zout["pruned"],
                                "config": config_for(handlers), "container": cont,
+                               **({"content_form_of_the_metadata": G.form_of_dir(tree, p) or G.form_of_dir(tree, p.rsplit("/", 1)[0] if "/" in p else "")}
+                                  if is_forms else {}),
                                **({"history": "step 2: after the archive was rewritten in place and the tree re-extracted, "
                                               "same server process",
                                    "tree_after_update": tree2, "members_after_update": members2} if step == 2 else {})},
                               tag=("zip-stale-after-rewrite:" if step == 2 else "") +
-                                  classify_request_diff(tree2 if step == 2 else tree, p, d19_paths))
+                                  classify_request_diff(tree2 if step == 2 else tree, p, d19_paths, forms=plain_alike))
         if zout["cwd_created"]:
             found = True
             chk.violation({"what": "requests into an archive created files in the server's working directory",
                            "created": zout["cwd_created"], "members": members, "handler_list": hname},
                           tag="D19-writes-in-server-cwd")
+    chk.coverage["oracle_content_forms"] = {
+        "forms": [n for n, _, _ in G.FORMS], "classes": sorted(set(G.FORM_CLASS.values())),
+        "form_trees": len(form_trees), "directories_per_form_tree": len(G.FORMS),
+        "classes_in_random_trees": list(RANDOM_TREE_FORM_CLASSES),
+        "differences_in_the_forms_tree_beyond_two_replays_per_form": nmore,
+        "metadata_members_in_a_form_other_than_lf": sum(1 for m in meta if m[4] == "zip-first" for e in G.flatten(m[0])
+                                                        if e.get("form") not in (None, "lf")),
+        "members": ".names / .Links / .cap/* / *.abstract / .abstract / gophermap / *.html (title) / *.html.tal (template, forms tree only)"}
     chk.coverage["oracle"] = {"trees": ntrees, "degenerate_archives": [n for n, _ in degenerate], "handler_lists": 2, "requests": nreq, "response_differences": ndiff,
                               "history_requests_after_in_place_rewrite": nhist,
                               "real_only_handler_inside_archive": nreal, "protocols": protos,
@@ -658,13 +722,20 @@ def part_oracle(chk, tier):
     return found
 
 
-def classify_request_diff(tree, p, d19_paths):
+def classify_request_diff(tree, p, d19_paths, forms=False):
     """stable tag for a response difference: by what the member path runs through"""
     if p == "<parent>":
         return "zip-archive-entry-in-parent-differs"
     if p == "<root>":
         return "zip-archive-root-entry-differs"
     base = p.split("|")[0].split("?")[0]
+    if forms:
+        # the forms tree: every directory holds one content form
+        fc = G.form_class_near(tree, base)
+        if fc and fc.startswith("template:"):
+            return "zip-template-form-differs:" + fc[len("template:"):]
+        if fc:
+            return "zip-metadata-form-differs:" + fc
     if p in d19_paths or base in d19_paths:
         return "D19-archive-answer-differs"
     if any(q.startswith(base + "/") and "/" not in q[len(base) + 1:] for q in d19_paths if base) or \
@@ -735,7 +806,11 @@ def run(tier):
         "invalid_paths, entrycache and sequences of stat/isdir/isfile/exists/listdir/open vs the model evaluated in Coq; "
         "extract+os_walk vs the real extracted tree; posixpath functions vs Lib/ZipPath.v.  Oracle: every selector of the "
         "tree + paths through links + missing ones + climbers + virtual-folder arguments, 9 protocol syntaxes, 2 handler "
-        "orders, /XT/<sel> vs /XT.zip/<sel> byte for byte after masking.  non-trivial = index has more than two inodes / "
+        "orders, /XT/<sel> vs /XT.zip/<sel> byte for byte after masking.  Content form of metadata members (.names/.Links/"
+        ".cap/*, side-cars, gophermaps, HTML titles, templates): LF/CRLF/CR/mixed/no final newline/trailing blanks, long lines, "
+        "non-UTF-8/BOM/NUL bytes, a truncated UTF-8 sequence at the end, FF/VT/FS/GS/RS/NEL/U+2028/U+2029 inside lines, side-cars "
+        "beyond a bounded read -- per directory in every random oracle tree, and one tree with the same logical directory once per "
+        "form (menus in 9 protocols, Gopher+ info and documents of what lies in it, template handler on).  non-trivial = index has more than two inodes / "
         "call succeeded / answer is not the protocol's not-found")
     return chk.finish("proof")
 
